@@ -8,6 +8,7 @@ from datetime import datetime
 
 # Third Party Imports
 from numpy import array, concatenate
+from sqlalchemy import inspect
 from sqlalchemy.orm import Query
 
 # Local Imports
@@ -55,6 +56,33 @@ class ImporterDatabase(DataInterface):
         #    is not being used.
         self.logger.debug(f"Database path: {db_path}")
 
+    def resetData(self, tables: tuple = ()) -> None:
+        """Override :class:`.DataInterface` implementation: an existing importer database is only read.
+
+        The data model is created only in a database that has no tables yet (one that is about to be
+        populated, see :meth:`.initDatabaseFromJSON`) or when tables are explicitly dropped. Merely
+        opening an existing database must not modify it, even if it lacks tables of the data model.
+
+        Args:
+            tables (``iterable``, optional): Iterable of table names to have data reset (removed).
+                Defaults to an empty tuple.
+        """
+        if tables or not inspect(self.engine).get_table_names():
+            super().resetData(tables=tables)
+        self._absent_tables = set(self.VALID_DATA_TYPES) - set(inspect(self.engine).get_table_names())
+
+    def getData(self, query: Query, multi=True):
+        """Override :class:`.DataInterface` implementation: a table this database lacks holds no rows."""
+        if isinstance(query, Query) and self._absent_tables:
+            selected = {
+                desc["entity"].__tablename__
+                for desc in query.column_descriptions
+                if desc["entity"] is not None
+            }
+            if selected & self._absent_tables:
+                return [] if multi else None
+        return super().getData(query, multi=multi)
+
     def insertData(self, *args):
         """Override :class:`.DataInterface` implementation.
 
@@ -81,6 +109,10 @@ class ImporterDatabase(DataInterface):
 
     def _insertData(self, *args):
         """Re-implement :meth:`.DataInterface.insertData` as private method."""
+        if self._absent_tables:
+            # The database is being written to on purpose: complete the data model first
+            super().resetData()
+            self._absent_tables = set()
         with self._getSessionScope() as session:
             session.add_all(args)
 
